@@ -290,9 +290,7 @@ def known_signature(k, engine, case, model, spec, impl):
     spec asks for a successful load, and some load names a unit and a target alike."""
     if k.get("id") != "C13-same-name-panic" or engine != "c13":
         return False
-    import sys, os
-    sys.path.insert(0, os.path.dirname(os.path.dirname(os.path.abspath(__file__))))
-    import vcommon as V
+    import vcommon as V          # lib/ is on sys.path when ./check loads the plugin
     if "PANIC" not in model.split() or "PANIC" in spec.split() or not V.obs_match(model, impl):
         return False
     for op in case.split(";"):
